@@ -298,3 +298,35 @@ def format_template(node):
             pos = mt.end()
         return out + txt[pos:].replace('{', '{{').replace('}', '}}'), args
     return None
+
+
+def dispatch_table(func, key_text):
+    """{key text: (callee text, [argument texts])} of a function that hands its work to one of several callables depending on ``key_text``:
+    an if/elif chain of ``key == K`` guarding calls, or a dict literal {K: callable} looked up with the key (``.get(key)`` / ``[key]``)
+    whose result is then called.  Both spellings give the same table."""
+    from .cfg import cfg_of
+    g = cfg_of(func)
+    out = {}
+    for n in g.nodes:
+        if n.kind != 'stmt' or not isinstance(n.ast, ast.Expr) or not isinstance(n.ast.value, ast.Call):
+            continue
+        c = n.ast.value
+        for f in g.facts_at(n):
+            if f.op == '==' and f.pol and key_text in (norm(f.left), norm(f.right)):
+                k = norm(f.right) if norm(f.left) == key_text else norm(f.left)
+                out[k] = (norm(c.func), [norm(a) for a in c.args])
+        if isinstance(c.func, ast.Name):
+            for d in g.reaching_defs(n, c.func.id):
+                v = d.ast.value if isinstance(d.ast, ast.Assign) else None
+                tbl = None
+                if isinstance(v, ast.Call) and isinstance(v.func, ast.Attribute) and v.func.attr == 'get' and v.args and norm(v.args[0]) == key_text and len(v.args) == 1:
+                    tbl = v.func.value
+                elif isinstance(v, ast.Subscript) and norm(v.slice) == key_text:
+                    tbl = v.value
+                if isinstance(tbl, ast.Name):
+                    td = g.reaching_defs(d, tbl.id)
+                    tbl = td[0].ast.value if len(td) == 1 and isinstance(td[0].ast, ast.Assign) else None
+                if isinstance(tbl, ast.Dict):
+                    for k_, v_ in zip(tbl.keys, tbl.values):
+                        out[norm(k_)] = (norm(v_), [norm(a) for a in c.args])
+    return out
